@@ -72,6 +72,25 @@ def run_vdrv(args, stdin=None, timeout=600, env=None):
     return p.returncode, p.stdout, p.stderr
 
 
+def tool_panic(stderr_text):
+    """If the driver process died of a Go runtime panic raised inside the TOOL's own code (a goroutine the tool started, which
+    no harness recover() can reach), return 'message @ file:line' of the first tool frame; None when the first non-runtime frame
+    belongs to the harness (then it is our bug: exit 2)."""
+    m = re.search(r"^panic: (.*)$", stderr_text, re.M)
+    if not m:
+        return None
+    tail = stderr_text[m.end():]
+    for fm in re.finditer(r"^\s+(/\S+\.go):(\d+)", tail, re.M):
+        path = fm.group(1)
+        if "/go-" in path or path.startswith("/usr/lib/go") or "/opt/veriftools/go" in path or "/pkg/mod/" in path:
+            continue
+        src = os.path.join(REPO, "src") + os.sep
+        if path.startswith(src):
+            return "%s @ %s:%s" % (m.group(1)[:160], path[len(src):], fm.group(2))
+        return None
+    return None
+
+
 # ------------------------------------------------------------------ scratch directories
 
 class Scratch:
